@@ -49,28 +49,36 @@ func ExpandEnv(s string) string {
 
 func expandEnvWithCmd(s string) (string, bool) {
 	var config bool
-	expanded := reSubcmd.ReplaceAllStringFunc(s, func(m string) string {
-		subcmd := strings.TrimSpace(m[2 : len(m)-1])
-		args := parseSubcmd(subcmd)
-		cmd := args[0]
-		if cmd != "pkg-config" && cmd != "llvm-config" {
-			fmt.Fprintf(os.Stderr, "expand cmd only support pkg-config and llvm-config: '%s'\n", subcmd)
-			return ""
-		}
-		config = true
+	var b strings.Builder
+	last := 0
+	// $VAR is expanded only in the text of the directive itself: the output
+	// of a command is inserted as is and never scanned for references again.
+	for _, loc := range reSubcmd.FindAllStringIndex(s, -1) {
+		b.WriteString(os.Expand(s[last:loc[0]], os.Getenv))
+		out, ok := runSubcmd(s[loc[0]:loc[1]])
+		config = config || ok
+		b.WriteString(out)
+		last = loc[1]
+	}
+	b.WriteString(os.Expand(s[last:], os.Getenv))
+	return strings.TrimSpace(b.String()), config
+}
 
-		var out []byte
-		var err error
-		out, err = exec.Command(cmd, args[1:]...).Output()
-
-		if err != nil {
-			// TODO(kindy): log in verbose mode
-			return ""
-		}
-
-		return strings.Replace(strings.TrimSpace(string(out)), "\n", " ", -1)
-	})
-	return strings.TrimSpace(os.Expand(expanded, os.Getenv)), config
+// runSubcmd runs "$(cmd args...)" and returns its output on one line.
+func runSubcmd(m string) (string, bool) {
+	subcmd := strings.TrimSpace(m[2 : len(m)-1])
+	args := parseSubcmd(subcmd)
+	cmd := args[0]
+	if cmd != "pkg-config" && cmd != "llvm-config" {
+		fmt.Fprintf(os.Stderr, "expand cmd only support pkg-config and llvm-config: '%s'\n", subcmd)
+		return "", false
+	}
+	out, err := exec.Command(cmd, args[1:]...).Output()
+	if err != nil {
+		// TODO(kindy): log in verbose mode
+		return "", true
+	}
+	return strings.Replace(strings.TrimSpace(string(out)), "\n", " ", -1), true
 }
 
 func parseSubcmd(s string) []string {
